@@ -439,14 +439,13 @@ def run_scenario(args):
 
 def run_parallel(jobs, procs=14, timeout=3600):
   """jobs: list of run_scenario args. Fresh worker per job (maxtasksperchild=1) keeps curve tables from piling up."""
-  ctx = mp.get_context('fork')
+  from pv import proc
   out = []
   t0 = time.time()
-  with ctx.Pool(processes=min(procs, max(1, len(jobs))), maxtasksperchild=1) as pool:
-    for res in pool.imap_unordered(run_scenario, jobs):
-      out.append(res)
-      if time.time() - t0 > timeout:
-        raise tlc.MachineryError('scenario replay exceeded %ss' % timeout)
+  for res in proc.imap_unordered(run_scenario, jobs, procs=min(procs, max(1, len(jobs)))):
+    out.append(res)
+    if time.time() - t0 > timeout:
+      raise tlc.MachineryError('scenario replay exceeded %ss' % timeout)
   return out
 
 
@@ -461,8 +460,12 @@ def _clone(a, suffix=''):
   return b
 
 
+FORK_SLOTS = None     # optional multiprocessing semaphore: how many forked settings may RUN at once (memory bound of the thorough tier)
+
+
 def _forked(fn):
-  """Runs fn() in a forked child of the current (pristine or warmed) process; returns its picklable result."""
+  """Runs fn() in a forked child of the current (pristine or warmed) process; returns its picklable result.
+  The child is forked now (so it has the parent's present state) but waits for a slot before it runs anything."""
   import pickle
   r, w = os.pipe()
   pid = os.fork()
@@ -471,7 +474,13 @@ def _forked(fn):
     try:
       os.close(r)
       try:
-        res = ('ok', fn())
+        if FORK_SLOTS is not None:
+          FORK_SLOTS.acquire()
+        try:
+          res = ('ok', fn())
+        finally:
+          if FORK_SLOTS is not None:
+            FORK_SLOTS.release()
       except Exception:  # pylint: disable=broad-except
         res = ('err', traceback.format_exc())
       with os.fdopen(w, 'wb') as f:
@@ -580,6 +589,5 @@ def run_scenario_c17(args):
 
 
 def run_parallel_fn(fn, jobs, procs=6):
-  ctx = mp.get_context('fork')
-  with ctx.Pool(processes=min(procs, max(1, len(jobs))), maxtasksperchild=1) as pool:
-    return list(pool.imap_unordered(fn, jobs))
+  from pv import proc
+  return list(proc.imap_unordered(fn, jobs, procs=min(procs, max(1, len(jobs)))))
